@@ -1,5 +1,13 @@
 from props_common import TRUSTED_COMMON, VIEW_RULE, views_harness
 
+def _store(name, kind, modes, quick, thorough):
+    return {"name": name, "src": "store.cpp", "flags": ["-O0", f"-DPTR_KIND={kind}"], "modes": modes, "programs": {"quick": quick, "thorough": thorough}, "driver": "mmdrv_store"}
+
+
+def _algos(name, kind, quick, thorough):
+    return {"name": name, "src": "algos.cpp", "flags": ["-O0", f"-DPTR_KIND={kind}"], "modes": ["all"], "programs": {"quick": quick, "thorough": thorough}, "driver": "mmdrv_store"}
+
+
 PROP = {
     "lean_targets": ["MultiProofs.C11"],
     "lean_module": "MultiProofs.C11",
@@ -15,11 +23,20 @@ PROP = {
         views_harness(["zero", "rebased"], 3200, 200000, name="views_raw", flags=["-O1", "-g", "-DPTR_KIND=0"]),
         views_harness(["zero", "rebased"], 3200, 200000, name="views_offsetptr", flags=["-O1", "-g", "-DPTR_KIND=1"]),
         views_harness(["zero", "rebased"], 3200, 200000, name="views_checkedptr", flags=["-O1", "-g", "-DPTR_KIND=2"]),
+        # C05 / C07 programs (assignment, fill, swap, ==, <, ... through views, array_refs and owning arrays) and C03 programs
+        # (20 std:: algorithms on rows / elements()) over the offset pointer and the bounds-tracking pointer; same oracle as
+        # C05 / C07 / C03: the unchanged driver mmdrv_store (the raw-pointer builds are checked by C05, C07, C03 themselves)
+        _store("store_fancy1", 1, ["c05", "c07"], 3200, 160000),
+        _store("store_fancy2", 2, ["c05", "c07"], 3200, 160000),
+        _algos("algos_fancy1", 1, 4800, 240000),
+        _algos("algos_fancy2", 2, 4800, 240000),
     ],
-    "trusted_base": TRUSTED_COMMON + ["harness/common/fancy_ptr.hpp: the offset pointer (no conversion to/from T*) and its bounds-tracking variant"],
-    "assumptions": ["the programs replayed over the three pointer types are those of C01/C02/C19 (views, iterators, elements ranges); owning arrays with fancy allocator pointers and C04-C07 programs are not yet replayed over fancy pointers",
+    "trusted_base": TRUSTED_COMMON + ["harness/common/fancy_ptr.hpp: the offset pointer (no conversion to/from T*) and its bounds-tracking variant (for store.cpp / algos.cpp the tracked storage is the union of the program's root arrays, int and long cells, guard cells excluded)",
+                                      "for the store / algos streams the oracle is the one of C05 / C07 / C03 (driver mmdrv_store; for C03 the reference computed in the harness on std::vector of independent values)"],
+    "assumptions": ["the programs replayed over the pointer types are those of C01/C02/C19 (views, iterators, elements ranges; harness/views.cpp), C05/C07 (assignment, fill, swap, comparisons; harness/store.cpp) and C03 (std:: algorithms; harness/algos.cpp); owning arrays keep std::allocator (raw pointers) — they take part as sources / operands / saved values next to fancy-pointer views, arrays with fancy allocator pointers and the C04/C06 programs are not replayed over fancy pointers",
+                    "sort / stable_sort / partial_sort / nth_element on ROWS (D >= 2) of a fancy-pointer view do not compile on the unpatched library (no operator< between the saved owning array over T* and a view over another pointer type; repair in fixes/C11-hetero-less.patch): the harness detects this at compile time and generates those cases only when the library provides the operator",
                     "pointer arithmetic beyond one-past-the-end (inherent in end() of strided views) is not counted; only dereferences are bounds-checked"],
-    "rule": VIEW_RULE + "; each program runs over raw T*, a minimal offset pointer and a bounds-tracking pointer; all three answer streams must equal the model's stream; the tracking pointer reports every dereference outside the root's storage",
-    "level_text": "Theorems: every view operation, begin()/end() iterator and elements() position is affine in the base pointer (translation of the base translates every computed pointer and changes nothing else), so interpreting offsets in any lawful pointer type commutes with all operations, and with C01.reachable_in_bounds every dereference stays inside the storage. That the C++ templates use only the pointer's own arithmetic is validated by replaying the programs over a minimal offset pointer and a bounds-tracking pointer against the same model stream.",
+    "rule": VIEW_RULE + "; each program runs over raw T*, a minimal offset pointer and a bounds-tracking pointer; all three answer streams must equal the model's stream; the tracking pointer reports every dereference outside the root's storage (an OOB-DEREF line, which the model never prints); in addition the C05 / C07 programs (tools/props/C05.py STORE_RULE) and the C03 algorithm cases (tools/props/C03.py rule) run over the two fancy pointers against the same model stream as their raw-pointer builds",
+    "level_text": "Theorems: every view operation, begin()/end() iterator and elements() position is affine in the base pointer (translation of the base translates every computed pointer and changes nothing else), so interpreting offsets in any lawful pointer type commutes with all operations, and with C01.reachable_in_bounds every dereference stays inside the storage. That the C++ templates use only the pointer's own arithmetic is validated by replaying the programs of C01/C02/C19 (views, iterators, elements()), C05/C07 (deep assignment, fill, swap, element_moved, ==, !=, <, <=, >, >= between views, array_refs and raw-pointer owning arrays, int and long elements) and C03 (20 std:: algorithms on rows and elements()) over a minimal offset pointer and a bounds-tracking pointer against the same model stream as the raw-pointer build; the tracking pointer reports every dereference outside the arrays' storage.",
     "level_note": "Partial by nature (DESIGN §6 C11): template instantiation paths are validated, not proved. Trusted: Lean kernel (+propext, Classical.choice, Quot.sound), MultiModel transcription, the fancy pointer implementations in the harness.",
 }
